@@ -218,16 +218,35 @@ where
     FBig<Rm, B>: SciFmt,
 {
     let base = B as u32;
-    let s = BigInt::from(sig_value(r, m, base)) * if r.bool() { -1 } else { 1 };
-    let e = match r.below(6) {
+    let n = r.usize(30);
+    let mut s = BigInt::from(sig_value(r, m, base)) * if r.bool() { -1 } else { 1 };
+    let mut e = match r.below(6) {
         0 => 0,
         1 => r.range(1, 30),
         2 => -(qref::digits(&s, base) as i64) + r.range(-3, 3),
         _ => r.range(-80, 40),
     };
+    if r.chance(1, 5) {
+        // the digits dropped by `{:.N}` sit on / next to one half of the last shown digit: a k-digit tail
+        // floor(B^k / 2) + {-1, 0, 1} (the closest value below one half in odd bases, the tie in even bases)
+        let kmax = if r.bool() { 10 } else { 40 };
+        let k = 1 + r.usize(kmax);
+        let bk: BigInt = Pow::pow(&BigInt::from(base), k);
+        let half: BigInt = &bk / 2i32;
+        let tail: BigInt = match r.below(3) {
+            0 => (&half - 1i32).max(BigInt::zero()),
+            1 => &half + 1i32,
+            _ => half,
+        };
+        let head = BigInt::from(r.below(1_000_000));
+        s = (head * &bk + tail) * if r.bool() { -1i32 } else { 1i32 };
+        e = -((n + k) as i64);
+        if s.is_zero() {
+            s = BigInt::one();
+        }
+    }
     let x = q_of_parts(&s, e, base);
     let f = FBig::<Rm, B>::from_parts(ibig_of_int(&s), e as isize);
-    let n = r.usize(30);
     let d = || format!("print mode={} base={} x={}*{}^{} N={}", Rm::M.name(), base, s, base, e, n);
     let h = gen::hash_limbs((e as u64) << 16 ^ n as u64 ^ (base as u64) << 8, &limbs_of_nat(s.magnitude())) ^ s.is_negative() as u64;
     m.check("print", &format!("{}/b{}", Rm::M.name(), base), Some(h), &d, || {
